@@ -916,6 +916,14 @@ func (a *effAnalysis) origin1(v ssa.Value) Origin {
 		return Origin{Root: "g:" + gname(x)}
 	case *ssa.UnOp:
 		if x.Op == token.MUL {
+			// the content of a variable a function literal captured: known to the function that made the literal
+			if fv, ok := x.X.(*ssa.FreeVar); ok && !strings.HasSuffix(a.fn.Name(), "$bound") {
+				for i, f := range a.fn.FreeVars {
+					if f == fv {
+						return Origin{Root: fmt.Sprintf("fvc%d", i)}
+					}
+				}
+			}
 			// store forwarding: a field of an object this activation allocated holds what was stored into it
 			if fa, ok := x.X.(*ssa.FieldAddr); ok {
 				if al, ok := fa.X.(*ssa.Alloc); ok {
@@ -1080,6 +1088,15 @@ func (a *effAnalysis) addrLoc(addr ssa.Value) Loc {
 		return l
 	case *ssa.Alloc:
 		return Loc{Root: "a"}
+	case *ssa.FreeVar:
+		// the captured variable itself: a local of the function that made the literal
+		if !strings.HasSuffix(a.fn.Name(), "$bound") {
+			for i, f := range a.fn.FreeVars {
+				if f == x {
+					return Loc{Root: fmt.Sprintf("fva%d", i), Flat: "deref:" + addr.Type().String()}
+				}
+			}
+		}
 	}
 	o := a.origin(addr)
 	l := Loc{Root: o.Root, Flat: "deref:" + addr.Type().String()}
@@ -1433,6 +1450,35 @@ func (a *effAnalysis) bindingLoc(l Loc, mc *ssa.MakeClosure, k int) Loc {
 }
 
 func (a *effAnalysis) mapLoc(l Loc, args []ssa.Value) Loc {
+	if strings.HasPrefix(l.Root, "fvc") || strings.HasPrefix(l.Root, "fva") {
+		// a captured variable (fva) or what it holds (fvc), seen from the function that made the literal
+		var k int
+		fmt.Sscanf(l.Root[3:], "%d", &k)
+		nl := Loc{Root: "o", Flat: l.Flat, Pos: l.Pos, Via: l.Via}
+		if a.curMC != nil && a.curMC.Parent() == a.fn && k < len(a.curMC.Bindings) {
+			switch cell := a.curMC.Bindings[k].(type) {
+			case *ssa.Alloc:
+				if strings.HasPrefix(l.Root, "fva") {
+					nl.Root = "a"
+				} else {
+					o := a.cellOrigin(cell)
+					nl.Root = o.Root
+					if o.Root != "a" && o.Root != "o" {
+						nl.Path = o.Path + l.Path
+					}
+				}
+			case *ssa.FreeVar:
+				// captured again by a literal inside a literal: one level further out
+				for i, f := range a.fn.FreeVars {
+					if f == cell {
+						nl.Root = fmt.Sprintf("%s%d", l.Root[:3], i)
+						nl.Path = l.Path
+					}
+				}
+			}
+		}
+		return nl
+	}
 	if strings.HasPrefix(l.Root, "fv") {
 		var k int
 		fmt.Sscanf(l.Root, "fv%d", &k)
